@@ -17,6 +17,10 @@ pub struct Lookup {
     /// the add history
     #[serde(with = "fvec")]
     pub samples: Vec<f64>,
+    /// positions in the history before which reset() is called (the histogram stays the same
+    /// successfully built histogram: same edges, counts zero)
+    #[serde(default)]
+    pub resets: Vec<usize>,
 }
 
 fn run_lookup<H: Hist>(c: &Lookup, o: &mut Obs) -> TestResult {
@@ -54,7 +58,18 @@ fn run_lookup<H: Hist>(c: &Lookup, o: &mut Obs) -> TestResult {
     if edges.iter().any(|e| e.is_infinite()) {
         o.class("infinite edge");
     }
-    for &x in &c.samples {
+    for (pos, &x) in c.samples.iter().enumerate() {
+        if c.resets.contains(&pos) {
+            no_panic(|| h.reset()).map_err(|m| Fail { sig: "histogram:panic".into(), msg: format!("reset() panicked: {}", m) })?;
+            for v in model.iter_mut() {
+                *v = 0;
+            }
+            ok_adds = 0;
+            o.class("reset inside the history");
+            if h.ranges().iter().zip(&edges).any(|(a, b)| a.to_bits() != b.to_bits()) || h.bins().iter().any(|&b| b != 0) {
+                return fail("histogram:reset", format!("reset() must zero the counts and keep the edges {:?}; got edges {:?}, counts {:?}", edges, h.ranges(), h.bins()));
+            }
+        }
         let want = model_find(&edges, x);
         let in_range = rmin <= x && x < rmax;
         if x.is_nan() {
@@ -121,7 +136,7 @@ impl Check for BinLookup {
         "bin_lookup"
     }
     fn fp(&self, c: &Lookup, h: &mut Fp) {
-        h.s(&c.imp).u(c.len as u64).fs(&c.edges).fs(&c.samples);
+        h.s(&c.imp).u(c.len as u64).fs(&c.edges).fs(&c.samples).us(&c.resets);
         if let Some((s, e)) = &c.const_width {
             h.s(s).s(e);
         }
@@ -246,7 +261,7 @@ pub fn samples_around(edges: &[f64], picks: &[(proptest::sample::Index, u8, f64)
 }
 
 pub fn run(cx: &Ctx) {
-    cx.set_rule("cases = (implementation, LEN, edge vector or with_const_width(start,end), add history). Exhaustive: LEN 1..4, every non-decreasing edge vector over the lattice {-inf,-1,-0.0,0,0.5,1,2,+inf}, history = every edge, its two floating-point neighbours, bin midpoints, +-inf, +-0.0, NaN, +-f64::MAX, +-MIN_POSITIVE. Sampled: LEN 10 and 100 with runs of repeated edges and infinite outer edges, with_const_width histograms, samples drawn around edges. Oracle: linear scan for the unique i with lower_i <= x < upper_i; find/add Ok exactly then, only that count incremented, otherwise Err with counts unchanged and no panic (catch_unwind); sum of counts = successful adds; zero-width bins stay empty. Both histogram implementations when built with nightly. Non-trivial = the history contains a sample equal to / one ulp from an edge or NaN, or the edge vector has a repeated or infinite edge; distinct = hash of (implementation, LEN, edge bits, history bits)");
+    cx.set_rule("cases = (implementation, LEN, edge vector or with_const_width(start,end), add history). Exhaustive: LEN 1..4, every non-decreasing edge vector over the lattice {-inf,-1,-0.0,0,0.5,1,2,+inf}, history (once plain, once with a reset() in the middle) = every edge, its two floating-point neighbours, bin midpoints, +-inf, +-0.0, NaN, +-f64::MAX, +-MIN_POSITIVE. Sampled: LEN 10 and 100 with runs of repeated edges and infinite outer edges, with_const_width histograms, samples drawn around edges. Oracle: linear scan for the unique i with lower_i <= x < upper_i; find/add Ok exactly then, only that count incremented, otherwise Err with counts unchanged and no panic (catch_unwind); sum of counts = successful adds; zero-width bins stay empty. Both histogram implementations when built with nightly. Non-trivial = the history contains a sample equal to / one ulp from an edge or NaN, or the edge vector has a repeated or infinite edge; distinct = hash of (implementation, LEN, edge bits, history bits)");
     cx.assume("which of several equal edges binary_search_by returns is unspecified by std; the verdict is for the toolchain in this image");
     cx.extra("implementations", serde_json::json!(IMPLS));
     let mut cases = Vec::new();
@@ -254,7 +269,9 @@ pub fn run(cx: &Ctx) {
         for len in 1..=4usize {
             for e in lattice_vectors(len) {
                 let samples = sample_set(&e);
-                cases.push(Lookup { imp: imp.to_string(), len, const_width: None, edges: e, samples });
+                let half = samples.len() / 2;
+                cases.push(Lookup { imp: imp.to_string(), len, const_width: None, edges: e.clone(), samples: samples.clone(), resets: vec![] });
+                cases.push(Lookup { imp: imp.to_string(), len, const_width: None, edges: e, samples, resets: vec![half] });
             }
         }
     }
@@ -271,7 +288,8 @@ pub fn run(cx: &Ctx) {
                 let imp = imp.clone();
                 (edges_strategy(len), vec((any::<proptest::sample::Index>(), any::<u8>(), 0.0..1.0f64), 1..60)).prop_map(move |(edges, picks)| {
                     let samples = samples_around(&edges, &picks);
-                    Lookup { imp: imp.clone(), len, const_width: None, edges, samples }
+                    let resets = if picks.len() % 3 == 0 { vec![picks.len() / 2] } else { vec![] };
+                    Lookup { imp: imp.clone(), len, const_width: None, edges, samples, resets }
                 })
             };
             cx.run_pt(&BinLookup, n, w.min(8), strat, "LEN in {1,2,3,4,10,100}: random valid edge vectors with repeated/infinite edges, histories of 1..60 samples around edges");
@@ -295,7 +313,8 @@ pub fn run(cx: &Ctx) {
                     // edges are taken from the built histogram inside the test; provide an approximation for sampling
                     let approx: Vec<f64> = (0..=len).map(|i| s + (e - s) * i as f64 / len as f64).collect();
                     let samples = samples_around(&approx, &picks);
-                    Lookup { imp: imp.clone(), len, const_width: Some((fstr::enc(s), fstr::enc(e))), edges: vec![], samples }
+                    let resets = if picks.len() % 4 == 0 { vec![picks.len() / 3] } else { vec![] };
+                    Lookup { imp: imp.clone(), len, const_width: Some((fstr::enc(s), fstr::enc(e))), edges: vec![], samples, resets }
                 })
             };
             cx.run_pt(&BinLookup, n / 2, w.min(8), strat, "with_const_width(start, end) over 30 decades, histories around the nominal edges");
